@@ -12,7 +12,7 @@ from harness.core import Ctx
 from harness.props import c18
 
 RULE = ("DIP texts with 4 context nodes and 1-2 constrained nodes (float with unit, int with and without unit, str incl. the empty text and "
-        "none, bool, float/int arrays of declared rank 1-2, nodes whose value is delivered by a registered function as python scalar/list, numpy "
+        "none, bool, float/int/str/bool arrays of declared rank 1-2 (also declared only, also fed by a sliced scalar text), nodes whose value is delivered by a registered function as python scalar/list, numpy "
         "value or typed DIP value in another unit) carrying a random subset of {options per line, options list, !condition, !format, dimension bounds, declaration "
         "only}; values on / within 0.4e-6 of / 3e-6 off / far off each boundary, int nodes against non-integer bounds written directly or arising "
         "from a unit conversion, node reference on either side of the comparison; conditions that use {?} two or three times against different partners (another typed "
@@ -20,7 +20,9 @@ RULE = ("DIP texts with 4 context nodes and 1-2 constrained nodes (float with un
         "formats that accept / reject the empty text; options and bounds in other units of the same dimension (custom "
         "$units included); array values of lower, equal and higher rank than declared, given in the definition, a modification or a sliced "
         "reference; the constrained node is defined in place, or in a group and imported from a local path ({?defs.*}, {?defs.q}) or from a remote "
-        "$source file ({src?defs.*}), and then modified 0-3 times (also in other units); real DIP.parse accepts or raises; the values every node "
+        "$source file ({src?defs.*}), and then modified 0-3 times (also in other units); a fifth of the cases are STAGED parses (DIP(env) continues on the returned environment, 2-3 "
+        "stages) whose later stages modify the node, the node its !condition refers to ({?} < {?k}) or an unrelated node, judged after every stage; "
+        "real DIP.parse accepts or raises; the values every node "
         "ends with are computed independently by the generator and the Lean specification `holds` decides them; on acceptance the returned "
         "env.data() is re-checked against those values. non-trivial = >=2 constraint kinds on one node, or an option/condition in another unit, "
         "or a modification, or an import; distinct = the text")
@@ -35,6 +37,8 @@ ASSUMPTIONS = [
     "!condition expressions come from the C18 logical grammar with {?} bound to the node; their value is computed by the C18 model/specification",
     "re.match is a parameter: its verdict on the final value is computed by the harness and handed to model and specification",
     "int nodes are modified in their own unit (int casting of converted values is C14)",
+    "the value a modification in another unit leaves in a node is computed with the units layer itself (Quantity.value, property C04), so the "
+    "judged double is the one the code holds; the parsers of one staged history are kept alive (DIP names its sources after id(self))",
     "dimension bounds are enforced by cast_value on every assignment, not only on the final one: an array whose first value breaks the bounds "
     "is not modified afterwards in the generated texts (the code rejects it at once; judged here on the value that was rejected)",
     "an imported node and the node it was copied from are both nodes of an environment (the remote source is parsed and validated on its own): "
@@ -66,6 +70,18 @@ def gen_tables(ctx):
     return []
 
 
+def conv_real(v, src, dst):
+    """The value a modification `= v src` leaves in a node of unit dst: NumberType.convert, i.e. the units layer itself
+    (property C04) - the judged value must be the same double the code holds, not one rounded differently."""
+    if src == dst:
+        return float(v)
+    from scinumtools.units import Quantity, UnitEnvironment
+    with UnitEnvironment({"[x]": {"magnitude": 2.0, "dimensions": [1, 0, 0, 0, 0, 0, 0, 0]}}):
+        r = float(Quantity(float(v), src).value(dst))
+    assert abs(r - v * KMAP[src] / KMAP[dst]) <= 1e-9 * abs(r) + 1e-300
+    return r
+
+
 def fnum(x):
     return repr(float(x))
 
@@ -74,16 +90,36 @@ class Target:
     pass
 
 
-def nested(rng, shape, as_int):
+def nested(rng, shape, et):
+    """nested list of the given shape; et: True/'int', False/'float', 'str', 'bool'"""
+    if et is True:
+        et = "int"
+    if et is False:
+        et = "float"
     if not shape:
-        return rng.randint(1, 9) if as_int else float(rng.randint(1, 9))
-    return [nested(rng, shape[1:], as_int) for _ in range(shape[0])]
+        if et == "int":
+            return rng.randint(0, 9)
+        if et == "float":
+            return float(rng.randint(0, 9))
+        if et == "str":
+            return rng.choice(["a", "b", "John", "xy"])
+        return rng.random() < 0.5
+    return [nested(rng, shape[1:], et) for _ in range(shape[0])]
 
 
 def lit_list(v):
     if isinstance(v, list):
         return "[" + ",".join(lit_list(x) for x in v) + "]"
+    if isinstance(v, bool):
+        return "true" if v else "false"
+    if isinstance(v, str):
+        return '"%s"' % v
     return repr(v)
+
+
+def lit_value(v):
+    """right-hand side of a definition / modification: scalars of a text are written bare"""
+    return v if isinstance(v, str) else lit_list(v)
 
 
 def cond_wrap(rng, cmp_):
@@ -133,6 +169,7 @@ def gen_target(rng, name, custom, imported):
     t.kind = rng.choice(["float", "float", "int", "int", "str", "str", "bool", "array", "array"] + ([] if imported else ["fn", "fn"]))
     t.fn = None
     t.lines, t.mods = [], []          # mods: right-hand sides "<value> <unit>"
+    t.mod_vals, t.mod_shapes = [], []  # the value / shape the node has after each modification
     t.options, t.cond_ast, t.fmt, t.dims = [], None, None, []
     t.declared = False
     t.unit = None
@@ -154,7 +191,8 @@ def gen_target(rng, name, custom, imported):
             else:
                 mv = float(rng.choice(c18.NUMS))
             t.mods.append("%s %s" % (fnum(mv), u2))
-            t.final = mv * KMAP[u2] / KMAP[t.unit]
+            t.final = conv_real(mv, u2, t.unit)
+            t.mod_vals.append(t.final)
         ref = t.initial if imported else (t.final if t.final is not None else 1.0)
         if rng.random() < 0.55:
             n = rng.randint(1, 3)
@@ -199,6 +237,7 @@ def gen_target(rng, name, custom, imported):
             v2 = max(1, v + rng.choice([0, 1, -1, 2])) if imported else rng.randint(1, 9)
             t.mods.append("%d%s" % (v2, us))
             t.final = v2
+            t.mod_vals.append(v2)
         ref = t.initial if imported else t.final
         if rng.random() < 0.55:
             # written as integers of a finer unit: in the node's unit they may lie between the integers (90 s = 1.5 min)
@@ -253,6 +292,7 @@ def gen_target(rng, name, custom, imported):
             v2 = rng.choice(WORDS + ([None] if not imported else []))
             t.mods.append(sq(v2))
             t.final = v2
+            t.mod_vals.append(v2)
         ref = t.initial if imported else t.final
         if rng.random() < 0.5:
             opts = rng.sample([w for w in WORDS if w], rng.randint(1, 3))
@@ -281,6 +321,7 @@ def gen_target(rng, name, custom, imported):
             v2 = rng.random() < 0.5
             t.mods.append("true" if v2 else "false")
             t.final = v2
+            t.mod_vals.append(v2)
         if rng.random() < 0.7:
             if imported:
                 t.cond_ast = ["lit", "{?}"] if v else ["pre", "not", ["lit", "{?}"]]
@@ -337,10 +378,11 @@ def gen_target(rng, name, custom, imported):
         t.initial = t.final = expected
         t.shape0 = t.shape = list(shape)
         t.kind = "array"
-    else:   # array with dimension bounds: declared rank 1-2, value rank 0-3
-        as_int = rng.random() < 0.4
+    else:   # array with dimension bounds: declared rank 1-2, value rank 0-3, elements float / int / str / bool
+        et = rng.choice(["float", "float", "int", "str", "str", "bool"])
+        as_int = et == "int"
         rank = rng.choice([1, 1, 2])
-        t.unit = None if as_int else "m"
+        t.unit = "m" if et == "float" else None
         us = " m" if t.unit else ""
 
         def bounds(n):
@@ -368,7 +410,7 @@ def gen_target(rng, name, custom, imported):
 
         def value_shape():
             r = rng.random()
-            if r < 0.6:
+            if r < 0.55:
                 return list(ext)
             if r < 0.8:
                 return list(ext[:rank - 1])                      # lower rank (a scalar for rank 1)
@@ -377,33 +419,45 @@ def gen_target(rng, name, custom, imported):
             return [max(1, n + rng.choice([1, -1])) for n in ext]
         shape = value_shape()
         how = rng.random()
-        if how < 0.25 and shape and not as_int:
+        declared_only = how > 0.85 and not imported
+        if declared_only:
+            # declaration, the first value arrives by a modification
+            t.declared = True
+            t.lines.append("%s %s[%s]%s" % (name, et, ",".join(txt), us))
+            t.initial = t.final = None
+            t.shape0 = t.shape = []
+        elif how < 0.2 and shape and et == "float":
             # sliced reference to a larger array: some axes indexed (dropped), others ranged
             src_shape = [n + 1 for n in shape] + ([2] if rng.random() < 0.5 else [])
-            src = nested(rng, src_shape, False)
-            sl, val = [], src
-            parts = []
-            for n in shape:
-                parts.append(":%d" % n)
+            src = nested(rng, src_shape, "float")
+            parts = [":%d" % n for n in shape]
             if len(src_shape) > len(shape):
                 parts.append("0")
             import numpy as np
             arr = np.array(src)[tuple([slice(0, n) for n in shape] + ([0] if len(src_shape) > len(shape) else []))]
             t.extra_ctx.append("srcarr float[%s] = %s m" % (",".join(str(n) for n in src_shape), lit_list(src)))
             t.lines.append("%s float[%s] = {?srcarr}[%s]" % (name, ",".join(txt), ",".join(parts)))
-            val = arr.tolist()
-            t.unit = "m"
+            t.initial = t.final = arr.tolist()
+            t.shape0 = t.shape = list(shape)
+        elif how < 0.3 and et == "str" and rank == 1:
+            # sliced reference to a scalar text: the slice of a text is a text, not an array
+            t.extra_ctx.append("srctext str = abcdef")
+            t.lines.append("%s str[%s] = {?srctext}[0:3]" % (name, ",".join(txt)))
+            t.initial = t.final = "abc"
+            t.shape0 = t.shape = shape = []
         else:
-            val = nested(rng, shape, as_int)
-            t.lines.append("%s %s[%s] = %s%s" % (name, "int" if as_int else "float", ",".join(txt), lit_list(val), us))
-        t.initial = t.final = val
-        t.shape0 = t.shape = list(shape)
-        if within(shape) and rng.random() < 0.5:   # bounds are enforced on every assignment (see ASSUMPTIONS)
+            val = nested(rng, shape, et)
+            t.lines.append("%s %s[%s] = %s%s" % (name, et, ",".join(txt), lit_value(val), us))
+            t.initial = t.final = val
+            t.shape0 = t.shape = list(shape)
+        if declared_only or (within(shape) and rng.random() < 0.5):   # bounds are enforced on every assignment (see ASSUMPTIONS)
             shape2 = value_shape()
-            val2 = nested(rng, shape2, as_int)
-            t.mods.append("%s%s" % (lit_list(val2), " m" if t.unit else ""))
+            val2 = nested(rng, shape2, et)
+            t.mods.append("%s%s" % (lit_value(val2), us))
             t.shape = list(shape2)
             t.final = val2
+            t.mod_vals.append(val2)
+            t.mod_shapes.append(list(shape2))
     return t
 
 
@@ -438,6 +492,158 @@ def correspond(ctx: Ctx):
         shutil.rmtree(tmpdir, ignore_errors=True)
 
 
+def staged_stream(ctx, rng, tabs, drv18, count, DIP, unit_rows):
+    """Staged parses: DIP(env) continues on the environment a previous parse returned. Later stages modify the constrained
+    nodes and the nodes their conditions refer to; after every stage each node of the environment must satisfy its constraints."""
+    cases = []
+    for _ in range(count):
+        t = gen_target(rng, "q", False, True)       # constraints built around the initial value: stage 1 is mostly valid
+        if t.extra_ctx or t.fn:
+            continue
+        vals = {"k": 3.0, "j": 2, "n": 4}
+        partner = None
+        if t.kind == "float" and rng.random() < 0.8:
+            partner = "k"
+            v_m = t.initial * KMAP[t.unit]
+            vals["k"] = v_m * rng.choice([2.0, 1.5, 0.5])
+            op = "lt" if vals["k"] > v_m else "gt"
+            cmp_ = ["bin", op, ["lit", "{?}"], ["lit", "{?k}"]] if rng.random() < 0.7 else \
+                ["bin", {"lt": "gt", "gt": "lt"}[op], ["lit", "{?k}"], ["lit", "{?}"]]
+            if rng.random() < 0.4:
+                cmp_ = ["bin", "and", cmp_, ["bin", "gt", ["lit", "{?}"], ["lit", "0"]]]
+            t.cond_ast = c18.wf_fix(cmp_, c18.LOG_LVL)
+        elif t.kind == "int" and t.unit in ("m", "cm", "km") and rng.random() < 0.8:
+            partner = "j"
+            v_m = t.initial * KMAP[t.unit]
+            vals["j"] = max(1, int(v_m * rng.choice([2, 3]))) if v_m >= 1 else 2
+            op = "lt" if vals["j"] > v_m else ("gt" if vals["j"] < v_m else "le")
+            t.cond_ast = ["bin", op, ["lit", "{?}"], ["lit", "{?j}"]]
+        stage1 = ["k float = %s m" % fnum(vals["k"]), "n int = 4", "w str = 'ab'", "j int = %d m" % vals["j"]] + list(t.lines)
+        # later stages: modifications of the node, of the node its condition refers to, of an unrelated node
+        nstages = rng.choice([2, 2, 3])
+        plan = [[] for _ in range(nstages - 1)]
+        for i, m in enumerate(t.mods):
+            plan[rng.randrange(len(plan)) if i == 0 else min(len(plan) - 1, rng.randrange(len(plan)))].append(("q", i))
+        # keep the order of the node's own modifications
+        qs = sorted(i for st in plan for (w, i) in st if w == "q")
+        it = iter(qs)
+        plan = [[("q", next(it)) for _ in st] for st in plan]
+        for st in plan:
+            r = rng.random()
+            if partner and r < 0.7:
+                ref = (t.initial if not t.mod_vals else rng.choice([t.initial] + t.mod_vals)) * KMAP[t.unit]
+                if partner == "k":
+                    st.insert(rng.randrange(len(st) + 1), ("k", ref * rng.choice([2.0, 0.5, 1.5, 0.75, 1 + 3e-6, 1 - 3e-6])))
+                else:
+                    st.insert(rng.randrange(len(st) + 1), ("j", max(1, int(round(ref + rng.choice([1, -1, 2, 0]))))))
+            elif r < 0.85:
+                st.append(("n", rng.randint(1, 9)))
+        cases.append((t, vals, stage1, plan, partner))
+
+    # states after every stage
+    reqs, where = [], []
+    for t, vals, stage1, plan, partner in cases:
+        t.states = []
+        cur = dict(vals)
+        qv, qs = t.initial, t.shape0
+        t.states.append((dict(cur), qv, qs))
+        t.stage_texts = []
+        for st in plan:
+            lines = []
+            for w, x in st:
+                if w == "q":
+                    lines.append("q = %s" % t.mods[x])
+                    qv = t.mod_vals[x]
+                    if t.mod_shapes:
+                        qs = t.mod_shapes[x]
+                elif w == "k":
+                    cur["k"] = x
+                    lines.append("k = %s m" % fnum(x))
+                elif w == "j":
+                    cur["j"] = x
+                    lines.append("j = %d m" % x)
+                else:
+                    cur["n"] = x
+                    lines.append("n = %d" % x)
+            t.stage_texts.append("\n".join(lines))
+            t.states.append((dict(cur), qv, qs))
+        t.cond_res = []
+        if t.cond_ast is not None:
+            for cur, qv, qs in t.states:
+                if qv is None:
+                    t.cond_res.append(None)
+                    continue
+                nodes = [["k", "float", cur["k"], "m"], ["n", "int", cur["n"], None], ["w", "str", "ab", None], ["j", "int", cur["j"], "m"],
+                         ["q", {"float": "float", "int": "int", "str": "str", "bool": "bool"}[t.kind], qv, t.unit]]
+                reqs.append({"p": "C18", "k": "log", "table": tabs["log"]["table"], "steps": tabs["log"]["steps"],
+                             "units": unit_rows(False), "nodes": nodes, "autoref": "q", "ast": t.cond_ast, "blanks": []})
+                where.append((t, len(t.cond_res)))
+                t.cond_res.append("pending")
+    res = drv18.ask_many(reqs)
+    for (t, i), r in zip(where, res):
+        t.cond_res[i] = (r["ok"]["text"], r["ok"]["model"], r["ok"]["spec"]) if "ok" in r else ("true", "outside", "unknown")
+    # model / specification per stage
+    reqs, where = [], []
+    for t, vals, stage1, plan, partner in cases:
+        for i, (cur, qv, qs) in enumerate(t.states):
+            nd = {"declared": t.declared, "value": value_json(t, qv), "unit": t.unit, "selectable": t.kind in ("float", "int", "str"),
+                  "options": t.options, "isStr": t.kind == "str", "dims": t.dims, "shape": qs}
+            if t.cond_ast is not None and qv is not None:
+                _, cm, cs = t.cond_res[i]
+                nd["cond"] = cm if isinstance(cm, bool) else "err"
+                nd["cond_spec"] = cs if isinstance(cs, bool) else ("unknown" if cs in ("unknown",) or cm == "outside" else False)
+            if t.fmt is not None:
+                nd["fmt"] = (re.match(t.fmt, qv) is not None) if qv is not None else False
+            reqs.append({"p": "C16", "k": "env", "units": unit_rows(False), "nodes": [nd]})
+            where.append((t, i))
+    res = ctx.driver.ask_many(reqs)
+    for t, vals, stage1, plan, partner in cases:
+        t.verdicts = [None] * len(t.states)
+    for (t, i), r in zip(where, res):
+        t.verdicts[i] = (r["ok"]["model"], r["ok"]["spec"]) if "ok" in r else (None, "unknown")
+    # the real staged parse
+    for t, vals, stage1, plan, partner in cases:
+        body = list(stage1)
+        if t.cond_ast is not None:
+            texts = [c[0] for c in t.cond_res if c]
+            if not texts:
+                continue
+            body.append("  !condition (\"%s\")" % texts[0])
+        texts = ["\n".join(body)] + t.stage_texts
+        env = None
+        keep = []
+        ctx.count("mode.staged")
+        shown = " ==> ".join(x.replace("\n", " / ") for x in texts)
+        ctx.case(["staged"] + texts, True, {"staged": shown[:200]})
+        for i, text in enumerate(texts):
+            model, spec = t.verdicts[i]
+            try:
+                with warnings.catch_warnings():
+                    warnings.simplefilter("ignore")
+                    d = DIP(env) if env is not None else DIP()
+                    keep.append(d)      # DIP names its sources after id(self): the parsers of one history must stay alive
+                    d.add_string(text)
+                    env = d.parse()
+                imp = True
+            except Exception as e:
+                imp = False
+            if spec == "unknown" or model is None:
+                ctx.count("not_judged")
+                break
+            replay = {"stream": "staged", "stages": texts[:i + 1], "stage": i + 1, "impl_accepts": imp, "model": model, "spec": spec}
+            if imp != spec:
+                kind = "+".join(k for k, on in (("options", t.options), ("condition", t.cond_ast is not None), ("format", t.fmt), ("dims", t.dims)) if on) or "plain"
+                ctx.violation(("accepts-violating:" if imp else "rejects-satisfying:") + "staged:" + kind,
+                              "stage %d of a staged parse %s although the values of the environment %s the constraints: %s" %
+                              (i + 1, "is accepted" if imp else "is rejected", "violate" if imp else "satisfy", shown[:400]), replay)
+                break
+            if imp != model:
+                ctx.disagreement("staged", replay, "impl accepts=%s model=%s" % (imp, model))
+                break
+            if not imp:
+                break
+
+
 def _run(ctx, rng, tabs, drv18, count, tmpdir, DIP, Format):
     cases = []
     for i in range(count):
@@ -462,6 +668,8 @@ def _run(ctx, rng, tabs, drv18, count, tmpdir, DIP, Format):
                 env = d.parse()
             unit_rows_cache[custom] = c18.unit_table(env, LUNITS + (["[x]"] if custom else []))
         return unit_rows_cache[custom]
+
+    staged_stream(ctx, rng, tabs, drv18, count // 5, DIP, unit_rows)
 
     # the node records of a case: (target, full name, value, shape)
     def records(mode, t):
